@@ -151,7 +151,7 @@ theorem merge_obj_obj (ps qs : List (String × Ty)) (m m' : Option Ty) :
 
 theorem merge_arr_arr (e e' : Ty) (d d' : Bool) :
     merge (.arr e d) (.arr e' d') =
-      if e.isAny then .arr e d else if e'.isAny then .arr e' d' else .arr (merge e e') false := rfl
+      if e.isAny then .arr e (d || d') else if e'.isAny then .arr e' (d || d') else .arr (merge e e') false := rfl
 
 theorem mergeProps_nil (props : List (String × Ty)) (mapped : Option Ty) :
     mergeProps props mapped [] = .obj props mapped := rfl
@@ -173,6 +173,11 @@ theorem merge_scalar_left {l : Ty} (h1 : l.isObj = false) (h2 : l.isArr = false)
     merge l r = mergeScalar l r := by
   cases l <;> cases r <;> first | rfl | (simp [isObj, isArr] at h1 h2; done)
 
+theorem merge_null_left (r : Ty) : merge .null r = mergeScalar .null r := merge_scalar_left rfl rfl r
+theorem merge_number_left (r : Ty) : merge .number r = mergeScalar .number r := merge_scalar_left rfl rfl r
+theorem merge_bool_left (r : Ty) : merge .bool r = mergeScalar .bool r := merge_scalar_left rfl rfl r
+theorem merge_string_left (r : Ty) : merge .string r = mergeScalar .string r := merge_scalar_left rfl rfl r
+
 theorem merge_obj_left (ps : List (String × Ty)) (m : Option Ty) {r : Ty} (h : r.isObj = false) :
     merge (.obj ps m) r = .any := by
   cases r <;> first | rfl | (simp [isObj] at h; done)
@@ -180,6 +185,13 @@ theorem merge_obj_left (ps : List (String × Ty)) (m : Option Ty) {r : Ty} (h : 
 theorem merge_arr_left (e : Ty) (d : Bool) {r : Ty} (h : r.isArr = false) :
     merge (.arr e d) r = .any := by
   cases r <;> first | rfl | (simp [isArr] at h; done)
+
+/-- evaluate `merge` on concrete types (its equational theorems cannot be generated, and `Ty` has no
+`DecidableEq`) -/
+macro "ty_eval" : tactic =>
+  `(tactic| simp [merge_arr_arr, merge_obj_obj, mergeProps_nil, mergeProps_cons, merge_any_left, merge_any_right,
+      merge_null_left, merge_number_left, merge_bool_left, merge_string_left, merge_obj_left, merge_arr_left,
+      mergeScalar, mapped0, mergeMapped, isSomeAny, Ty.lookup, Ty.setProp, Ty.isAny, Ty.isObj, Ty.isArr])
 
 mutual
 theorem merge_wf : (r : Ty) → ∀ l, wf l = true → wf r = true → wf (merge l r) = true
@@ -193,9 +205,9 @@ theorem merge_wf : (r : Ty) → ∀ l, wf l = true → wf r = true → wf (merge
     | arr e d =>
       rw [merge_arr_arr]
       split
-      · exact hl
+      · simpa [wf] using hl
       · split
-        · exact hr
+        · simpa [wf] using hr
         · simp only [wf] at hl hr ⊢
           exact merge_wf e' e hl hr
     | _ => rfl
